@@ -203,6 +203,8 @@ func panicKey(c *Case, stage string) string {
 		return "panic/json-node:" + c.Kind + ":" + c.Class + ":" + stage
 	case "oversized-plugin-output":
 		return "panic/oversized-plugin-output:" + c.Kind + ":" + c.Variant
+	case "hostile-repository":
+		return "panic/hostile-repository:" + c.Class
 	case "plugin-output":
 		return "panic/plugin-output:" + c.Kind + ":" + c.Variant + ":" + c.Class + ":" + stage
 	}
@@ -211,7 +213,7 @@ func panicKey(c *Case, stage string) string {
 
 func allocKey(c *Case) string {
 	switch c.Family {
-	case "config-matrix", "reader-seam":
+	case "config-matrix", "reader-seam", "hostile-repository":
 		return "runaway-allocation:" + c.Family
 	case "oversized-plugin-output":
 		return "runaway-allocation:oversized-plugin-output:" + c.Kind + ":" + c.Variant
@@ -1068,6 +1070,41 @@ func (x *wctx) runDocument(c *Case, res *Result) error {
 			_, _ = keys.Remove("k1", "k2")
 			*stage = "config.LoadSigningKeys(after Save)"
 			_, _ = config.LoadSigningKeys()
+			// every argument list of up to 3 names (the document's own names in any order, repeated, empty, unknown)
+			// for the variadic / name-taking operations, each on a freshly loaded instance
+			names := []string{"", "nope"}
+			if again, err := config.LoadSigningKeys(); err == nil && again != nil {
+				for i := range again.Keys {
+					if n := again.Keys[i].Name; len(names) < 6 && !contains(names, n) {
+						names = append(names, n)
+					}
+				}
+			}
+			var args [][]string
+			for _, a := range names {
+				args = append(args, []string{a})
+				for _, b := range names {
+					args = append(args, []string{a, b})
+					for _, d := range names {
+						args = append(args, []string{a, b, d})
+					}
+				}
+			}
+			for _, a := range args {
+				fresh, err := config.LoadSigningKeys()
+				if err != nil || fresh == nil {
+					break
+				}
+				*stage = "SigningKeys.Remove"
+				_, _ = fresh.Remove(a...)
+				*stage = "SigningKeys.UpdateDefault"
+				_ = fresh.UpdateDefault(a[len(a)-1])
+				*stage = "SigningKeys.GetDefault"
+				_, _ = fresh.GetDefault()
+				*stage = "SigningKeys.Remove"
+				_, _ = fresh.Remove(a[0])
+				res.Evals++
+			}
 		})
 		res.class("%s%s", pre, class)
 	case "config":
@@ -1313,6 +1350,19 @@ func (x *wctx) runLayout(c *Case, res *Result) error {
 	if c.Kind != "index.json" && c.Variant == "consistent" {
 		cands = append(cands, ocispec.Descriptor{MediaType: x.fx.LayoutDocs[c.Kind].MediaType, Digest: digest.FromBytes(c.Input), Size: int64(len(c.Input))})
 	}
+	// the same content under the media type of the OTHER manifest format, and with odd sizes: a descriptor handed to
+	// FetchSignatureBlob comes from a listing, i.e. from the registry
+	nlisted := len(cands)
+	for _, d := range cands[:nlisted] {
+		other := mtLegacy
+		if d.MediaType == mtLegacy {
+			other = mtImage
+		}
+		cands = append(cands, ocispec.Descriptor{MediaType: other, Digest: d.Digest, Size: d.Size})
+	}
+	cands = append(cands, ocispec.Descriptor{MediaType: mtIndex, Digest: x.fx.LayoutDocs["signature-manifest"].Digest, Size: x.fx.LayoutDocs["signature-manifest"].Size},
+		ocispec.Descriptor{MediaType: mtImage, Digest: x.fx.LayoutDocs["signature-manifest"].Digest, Size: -1},
+		ocispec.Descriptor{MediaType: mtImage, Digest: "deadbeef", Size: 10})
 	listedRefused := 0
 	x.call(res, c, "registry.Repository.FetchSignatureBlob", func(*string) {
 		ok, bad := 0, 0
@@ -1530,6 +1580,119 @@ func (x *wctx) runPlugin(c *Case, res *Result) error {
 				res.class("%s%s:%s", pre, p.name, class)
 			}
 		}
+	}
+	return nil
+}
+
+// ---------------------------------------------------------------------------
+// family: hostile repository (answers of a foreign registry.Repository implementation)
+
+type hostileRepo struct {
+	desc                 ocispec.Descriptor
+	sig                  []byte
+	resolve, list, fetch string
+	odd                  digest.Digest
+}
+
+func (h *hostileRepo) Resolve(_ context.Context, ref string) (ocispec.Descriptor, error) {
+	d := h.desc
+	switch h.resolve {
+	case "error":
+		return ocispec.Descriptor{}, errors.New("hostile repository: resolve fails")
+	case "zero-descriptor":
+		return ocispec.Descriptor{}, nil
+	case "negative-size":
+		d.Size = -1
+	case "empty-media-type":
+		d.MediaType = ""
+	case "odd-digest":
+		d.Digest = h.odd
+	}
+	return d, nil
+}
+
+func (h *hostileRepo) manifest(k int, odd bool) ocispec.Descriptor {
+	d := ocispec.Descriptor{MediaType: mtImage, Digest: digest.FromString(fmt.Sprintf("signature manifest %d", k)), Size: 18}
+	if odd {
+		d.Digest = h.odd
+	}
+	return d
+}
+
+func (h *hostileRepo) ListSignatures(_ context.Context, _ ocispec.Descriptor, fn func([]ocispec.Descriptor) error) error {
+	switch h.list {
+	case "none":
+		return fn([]ocispec.Descriptor{})
+	case "nil-page":
+		return fn(nil)
+	case "error":
+		return errors.New("hostile repository: listing fails")
+	case "two-pages":
+		if err := fn([]ocispec.Descriptor{h.manifest(1, false)}); err != nil {
+			return err
+		}
+		return fn([]ocispec.Descriptor{h.manifest(2, false)})
+	case "good-then-odd":
+		return fn([]ocispec.Descriptor{h.manifest(1, false), h.manifest(2, true)})
+	case "odd-then-good":
+		return fn([]ocispec.Descriptor{h.manifest(1, true), h.manifest(2, false)})
+	case "odd-only":
+		return fn([]ocispec.Descriptor{h.manifest(1, true)})
+	case "callback-error-ignored":
+		_ = fn([]ocispec.Descriptor{h.manifest(1, false)})
+		return fn([]ocispec.Descriptor{h.manifest(2, false)})
+	}
+	return fn([]ocispec.Descriptor{h.manifest(1, false)})
+}
+
+func (h *hostileRepo) FetchSignatureBlob(_ context.Context, m ocispec.Descriptor) ([]byte, ocispec.Descriptor, error) {
+	d := ocispec.Descriptor{MediaType: mtJWS, Digest: digest.FromBytes(h.sig), Size: int64(len(h.sig))}
+	if m.Digest == h.odd && h.odd != "-" && (strings.Contains(h.list, "odd")) {
+		// the odd manifest of a listing has no fetchable signature
+		return nil, ocispec.Descriptor{}, fmt.Errorf("hostile repository: manifest %q unknown", m.Digest)
+	}
+	switch h.fetch {
+	case "error":
+		return nil, ocispec.Descriptor{}, errors.New("hostile repository: fetch fails")
+	case "nil-blob":
+		return nil, ocispec.Descriptor{}, nil
+	case "empty-media-type":
+		d.MediaType = ""
+	case "odd-digest-in-descriptor":
+		d.Digest = h.odd
+	case "garbage":
+		return []byte("\x00garbage"), d, nil
+	}
+	return h.sig, d, nil
+}
+
+func (h *hostileRepo) PushSignature(context.Context, string, []byte, ocispec.Descriptor, map[string]string) (ocispec.Descriptor, ocispec.Descriptor, error) {
+	return ocispec.Descriptor{}, ocispec.Descriptor{}, errors.New("hostile repository: read-only")
+}
+
+func (x *wctx) runHostileRepo(c *Case, res *Result) error {
+	if len(c.Entries) != 3 {
+		return fmt.Errorf("hostile-repository case without answers")
+	}
+	res.Nontrivial = true
+	var classes []string
+	for _, level := range []string{"strict", "audit"} {
+		v, err := x.envVerifier(level)
+		if err != nil {
+			return err
+		}
+		repo := &hostileRepo{desc: x.fx.Desc, sig: x.fx.Sigs["oci/jws"], resolve: c.Entries[0], list: c.Entries[1], fetch: c.Entries[2], odd: digest.Digest(c.Variant)}
+		ref := refRepo + "@" + x.fx.Desc.Digest.String()
+		class := "panicked"
+		x.call(res, c, "notation.Verify", func(stage *string) {
+			class = x.judgeNotationVerify(res, c, stage, v, repo, ref)
+		})
+		classes = append(classes, coarse(class))
+	}
+	if c.Entries[0] == "ok" {
+		res.class("hostile-repository:list=%s,fetch=%s:%s", c.Entries[1], c.Entries[2], strings.Join(classes, ","))
+	} else {
+		res.class("hostile-repository:resolve=%s:%s", c.Entries[0], strings.Join(classes, ","))
 	}
 	return nil
 }
@@ -1864,6 +2027,8 @@ func (x *wctx) run(c *Case) (*Result, error) {
 		err = x.runPlugin(c, res)
 	case "oversized-plugin-output":
 		err = x.runOversized(c, res)
+	case "hostile-repository":
+		err = x.runHostileRepo(c, res)
 	default:
 		err = fmt.Errorf("unknown family %q", c.Family)
 	}
